@@ -26,6 +26,8 @@ var embHosts = []embHost{
 	{"youtube.co", "", "other"}, {"youtubeXcom.example", "", "other"},
 	{"www.youtube.com&v=1@evil.example", "", "userinfo-amp"}, {"player.vimeo.com&x@evil.example", "", "userinfo-amp"},
 	{"YOUTUBE.com", "youtube", "upper-case"}, {"youtube.com:8080", "youtube", "port"}, {"youtube.com.", "youtube", "trailing-dot"}, {"Player.Vimeo.com", "vimeo", "upper-case"},
+	// letters that Unicode case mapping turns into ASCII letters: U+0130 (I with dot above) lower-cases to i, U+212A (Kelvin sign) to k
+	{"tw\u0130tter.com", "", "unicode-lookalike"}, {"www.youtube-nocoo\u212aie.com", "", "unicode-lookalike"}, {"player.v\u0130meo.com", "", "unicode-lookalike"},
 }
 
 type embPath struct {
@@ -198,7 +200,7 @@ func genEmbedDoc(r *RNG) string {
 func init() {
 	register(&Prop{
 		ID:   "C19",
-		Rule: "full grid every run: 30 hosts (allow-listed roots, their subdomains, suffix look-alikes youtube.com.evil.example, prefix look-alikes evilyoutube.com / xplayer.vimeo.com, vimeo.com itself, userinfo tricks youtube.com@evil.example, upper case, port, trailing dot) x 23 path/query shapes (incl. fragments after the id, no path at all, /status/ID/photo/1, /watch?v=ID) (/embed/ID, /embed/ID/, /v/ID&x=1, /v/ID?x=1, /video/ID, /ID, container only, root, service name only in path or query, /user/status/ID, parameters+fragment) x 8 source forms (javascript:// and data:// URLs with a host-looking part, https, http, scheme-relative, relative with the page on / off the allow list, host name without scheme = relative path) x 12 carriers (a tweet quote whose noscript fallback is a foreign frame, a figure whose picture holds an iframe next to its image, an iframe with srcdoc, a tweet quote whose inert text re-parses into a frame, iframe, object[data], object>param[name=movie], rendered twitter iframe with data-tweet-id, twitter blockquote with the tweet link as last anchor, the same with foreign iframes/objects nested inside, an iframe whose src is foreign while the allow-listed URL sits in data-src, iframes among the children of a <picture>) = 38080 cases, each between two long paragraphs (quick) and additionally inside random articles (thorough). Oracle: a placeholder may exist only if the TRUE host (known by construction) is allow-listed; its data-type must be that service and data-id the id encoded in the URL (last path segment, resp. data-tweet-id); no bare <iframe> may survive. Non-trivial = every grid cell; distinct = distinct cells.",
+		Rule: "full grid every run: 33 hosts (allow-listed roots, their subdomains, suffix look-alikes youtube.com.evil.example, prefix look-alikes evilyoutube.com / xplayer.vimeo.com, look-alikes with a letter that Unicode lower-casing maps onto ASCII (U+0130, U+212A), vimeo.com itself, userinfo tricks youtube.com@evil.example, upper case, port, trailing dot) x 23 path/query shapes (incl. fragments after the id, no path at all, /status/ID/photo/1, /watch?v=ID) (/embed/ID, /embed/ID/, /v/ID&x=1, /v/ID?x=1, /video/ID, /ID, container only, root, service name only in path or query, /user/status/ID, parameters+fragment) x 8 source forms (javascript:// and data:// URLs with a host-looking part, https, http, scheme-relative, relative with the page on / off the allow list, host name without scheme = relative path) x 12 carriers (a tweet quote whose noscript fallback is a foreign frame, a figure whose picture holds an iframe next to its image, an iframe with srcdoc, a tweet quote whose inert text re-parses into a frame, iframe, object[data], object>param[name=movie], rendered twitter iframe with data-tweet-id, twitter blockquote with the tweet link as last anchor, the same with foreign iframes/objects nested inside, an iframe whose src is foreign while the allow-listed URL sits in data-src, iframes among the children of a <picture>) = 72864 cases, each between two long paragraphs (quick) and additionally inside random articles (thorough). Oracle: a placeholder may exist only if the TRUE host (known by construction) is allow-listed; its data-type must be that service and data-id the id encoded in the URL (last path segment, the segment after status for tweets, the v parameter of a YouTube watch page, resp. data-tweet-id); no bare <iframe> may survive. Non-trivial = every grid cell; distinct = distinct cells.",
 		Assumptions: []string{
 			"'only if': an allow-listed source that is not turned into a placeholder (port, case, unsupported carrier) is not a violation",
 			"the id 'taken from the URL' is the last non-empty path segment (not the container words embed/video), for rendered tweets the data-tweet-id attribute",
